@@ -1,7 +1,7 @@
 (* C19 -- property theorems only: each is closed by [exact] of a lemma proved elsewhere (Conc/TPoolProofs.v);
    plus non-vacuity examples (concrete runs of the model that satisfy the theorems' premises). *)
 From Coq Require Import List Arith Bool.
-From Muscle Require Import Conc.TPool Conc.TPoolLemmas Conc.TPoolInv Conc.TPoolStep Conc.TPoolTrace Conc.TPoolProofs Conc.TPoolProgress.
+From Muscle Require Import Conc.TPool Conc.TPoolLemmas Conc.TPoolInv Conc.TPoolStep Conc.TPoolTrace Conc.TPoolProofs Conc.TPoolProgress Conc.TPoolCount.
 Import ListNotations.
 
 (* Every Message handed to a handler was accepted before, each at most once and in submission order (the handled
@@ -70,6 +70,16 @@ Theorem C19_pool_parallel_bound : forall n ls s tr, run (init n) ls = Some (s, t
   (forall t, In t (s_active s) -> exists h c, tget t (s_thr s) = Some h /\ th_client h = Some c).
 Proof. exact pool_parallel_bound. Qed.
 Print Assumptions C19_pool_parallel_bound.
+
+(* The pool never creates more than _maxThreadCount threads: the thread-id counter (= number of ThreadPoolThreads ever
+   created) stays <= the constructor argument, every thread object has an id below it, and until Shutdown() begins every
+   thread created sits in _availableThreads or _activeThreads. *)
+Theorem C19_pool_threads_created_bound : forall n ls s tr, run (init n) ls = Some (s, tr) ->
+  s_max s = n /\ s_ctr s <= n /\
+  (forall t h, tget t (s_thr s) = Some h -> t < s_ctr s) /\
+  (s_shut s = false -> s_ctr s = length (s_avail s) + length (s_active s)).
+Proof. exact pool_threads_created_bound. Qed.
+Print Assumptions C19_pool_threads_created_bound.
 
 (* Termination argument for "every accepted Message is handled" and "a blocked UnregisterClient() is woken": every step
    of a pool thread (handler entry, handler return, batch-finished) strictly lowers [pool_work]; no transition other
